@@ -303,6 +303,10 @@ def parallel_add(
     if n_workers is None:
         n_workers = max(1, psutil.cpu_count(logical=False))
 
+    # A generator cannot be pickled, which a spawned fill process requires
+    if not isinstance(items, (list, tuple)):
+        items = list(items)
+
     ctx = get_context("spawn")
     queue = ctx.Queue(3 * n_workers)
     log_queue = ctx.Queue()
